@@ -79,6 +79,23 @@ def _sspor_case(ctx, rng, idx):
     ns = rng.choice([None, rng.randint(1, nf)])
     ok = rng.choice(["qr", "ccqr", "gqr"])
     desc = {"X": X.tolist(), "basis": bk, "n_modes": nm, "seed": seed, "n_sensors": ns, "opt": ok, "xk": xk}
+    # the model's life after the fit: accepted and REJECTED setter calls, read-only calls – the ranking and the
+    # selection are judged in the state they leave behind
+    post = []
+    if rng.random() < 0.6:
+        for _ in range(rng.randint(1, 4)):
+            r = rng.random()
+            if r < 0.3:
+                post.append(["set", rng.randint(1, nf)])
+            elif r < 0.65:
+                post.append(["set", rng.choice([nf + 1, nf + 4, 2 * nf, 0, -1, 2.5, None, "3"])])
+            elif r < 0.8:
+                post.append(["score"])
+            elif r < 0.9:
+                post.append(["reconstruction_error"])
+            else:
+                post.append(["predict"])
+    desc["post"] = post
     return desc
 
 
@@ -115,6 +132,18 @@ def _run_sspor(ctx, desc, rng=None):
         return {"error": "ValueError", "msg": str(e)}
     finally:
         del opt.get_sensors
+    for op in desc.get("post") or []:
+        try:
+            if op[0] == "set":
+                (model.set_number_of_sensors if len(desc["X"]) % 2 else model.set_n_sensors)(op[1])
+            elif op[0] == "score":
+                model.score(X)
+            elif op[0] == "reconstruction_error":
+                model.reconstruction_error(X)
+            else:
+                model.predict(X[:, model.get_selected_sensors()])
+        except Exception:
+            pass                      # a rejected call: the state it leaves behind is what is judged
     final = np.array(model.get_all_sensors()).tolist()
     sel = np.array(model.get_selected_sensors()).tolist()
     return {"final": final, "selected": sel, "n_sensors": model.n_sensors, "pre": pre.get("ranking"),
